@@ -399,6 +399,19 @@ func ruleC07Ignored(c *Ctx) {
 		// returned walk flag is collect's
 		for _, ret := range returnsOf(f) {
 			for _, v := range c.resultValues(ret, 0) {
+				// … or the constant it is known to equal on this path
+				if k, isConst := boolConstOf(v); isConst {
+					same := false
+					for _, fct := range factsAt(ret.Block()) {
+						cond, truth := normCond(fct.Cond, fct.Truth)
+						if ex, ok := cond.(*ssa.Extract); ok && ex.Tuple == ssa.Value(collect) && ex.Index == 0 && truth == k {
+							same = true
+						}
+					}
+					if same {
+						continue
+					}
+				}
 				if ex, ok := v.(*ssa.Extract); !ok || ex.Tuple != ssa.Value(collect) || ex.Index != 0 {
 					c.violate("C07.ignored", name+":walk-result", ret.Pos(), name, "Categorize does not return the walk decision of the group hierarchy unchanged")
 				}
@@ -981,7 +994,11 @@ func ruleC07Subgroups(c *Ctx) {
 				continue
 			}
 			if ret, ok := b.Instrs[len(b.Instrs)-1].(*ssa.Return); ok && len(ret.Results) > 0 {
-				if k, isConst := boolConstOf(ret.Results[0]); !isConst || k {
+				k, isConst := boolConstOf(ret.Results[0])
+				if zc, isZero := ret.Results[0].(*ssa.Const); isZero && zc.Value == nil {
+					k, isConst = false, true // the zero value of a result struct: not matched
+				}
+				if !isConst || k {
 					around = true
 					c.violate("C07.subgroups", "loops", ret.Pos(), name, "a group can answer \"matched\" without its subgroups having been asked: references would be missing from the tallies of the subgroups")
 				}
